@@ -3,7 +3,7 @@ CHECKS['C12'] = dict(
     design_ref='DESIGN.md 4 C12',
     technique='exhaustive enumeration of peer arrival-time vectors (<=k sends on a 1 s grid over 3H+5 s) against the real reactor under a controller-owned virtual clock; deadline oracle on the timestamps of written KEEPALIVE/NOTIFICATION bytes',
     text='The real reactor is established under a virtual clock for negotiated hold times {3, 9, 0} and the default 180 on a coarse grid (quick; + 4, 30, 3600 and 65535 thorough; ours x theirs so that min() is exercised, two sub-second phases), then every arrival vector with <=k '
-         'KEEPALIVE/UPDATE sends (k=3 for H=3, k=2 for H=9 quick; k=3-4 thorough), 30-UPDATE bursts, uninterrupted inbound streams of one UPDATE per 50 / 90 ms lasting H/3+1.5 s and H+1.5 s (every 100 ms read slice of the session loop finds a message), a 200-route outbound batch, a withheld OPEN and a withheld confirming KEEPALIVE are run. '
+         'KEEPALIVE/UPDATE sends (k=3 for H=3, k=2 for H=9 quick; k=3-4 thorough), 30-UPDATE bursts, uninterrupted inbound streams of one UPDATE per 50 / 90 ms lasting H/3+1.5 s and H+1.5 s (every 100 ms read slice of the session loop finds a message), a 200-route outbound batch, the same on a local-as auto session, a withheld OPEN and a withheld confirming KEEPALIVE are run. '
          'Checked: 4/0 and close within H + 2.2 s of the last receipt, never before H, KEEPALIVE gaps <= H/3 + 1.2 s, nothing periodic with H=0, 5/1 after openwait.',
     note='Trusted: virtual loop/clock seams (module-level time rebinding). Allowance 2 s (integer-second timers) + 0.2 s (loop period). Outside: hold times of hours, real scheduler latency.',
 )
